@@ -71,3 +71,4 @@ package dsmr
 //@ func Tx.GetID
 //@   pure
 //@   opt uf item_id
+
